@@ -3,7 +3,7 @@ SPEC = dict(
     bin="c44",
     cases_quick=1600,
     cases_thorough=60000,
-    level="proof+partial",
+    level="proof",
     technique="Coq model of validate_path / validate_and_init and of revertible_swap -> revertible_swap_for_one_side -> swap_along_the_path / swap_with_current over an abstract single-market swap, with theorems on path order, token chain, rejection of duplicates / no-op steps and conservation of recorded balances + differential correspondence against the REAL SwapMarkets::revertible_swap running on real Market accounts (real gmsol-model swaps, real Bank layer, real Oracle), per-hop amounts read from the emitted SwapExecuted events",
     text="A successful swap executes exactly the declared markets in order, each hop taking the previous hop's output token and amount, ends in the declared token, never accepts duplicate markets or no-op (pure market) steps at creation or execution, and moves recorded balances only by paired record_transferred_out/in of the swapped amount, so every token's total recorded balance over the markets involved is unchanged.",
     level_note="Tied to real code: validated_*_swap_path, validate_and_init/validate_path on real Market accounts, SwapMarkets::new, revertible_swap incl. both directions, current market at the start/end of a path, missing markets, wrong stores, disabled markets, underflow of recorded balances, and the expect() panic of the final validation. Abstract/trusted: the single-market swap amounts (taken from the SwapExecuted events; property C04), the numeric part of the balance validations (C22; the driver funds markets so that they pass), oracle price lookup. The hook run_revertible_swap plumbs RevertibleMarket::new + SwapMarkets::new + revertible_swap exactly as ExecuteOrderOperation does (no virtual inventories).",
